@@ -84,14 +84,16 @@ NewHandle(m, root) ==
 
 (* --- one probe notification --- *)
 LogOne(m, e, C) ==
-  IF e.t = "R" \/ e.t = "U"   \* C19: the body of harness task (e.p - 100) ran with sequence number e.v / its subscription was unsubscribed
+  IF e.t = "I"      \* C16: the counting iterator source was pulled: never after the (first) subscriber has seen its terminal
+  THEN Flag(m, GetB(m.term, 1), "C16", C.checks)
+  ELSE IF e.t = "R" \/ e.t = "U"   \* C19: the body of harness task (e.p - 100) ran with sequence number e.v / its subscription was unsubscribed
   THEN LET k == e.p - 100
            td == m.tdelay[k]
            h == td[1]
            n == GetI(m.truns, k)
            ok == IF e.t = "U" THEN TRUE
                  ELSE /\ ~GetB(m.unsubd, h)                                   \* never after unsubscribe() returned
-                      /\ ~GetB(m.closed, h) \/ td[2] = 3                      \* a handle that reported closed cannot act any more
+                      /\ ~GetB(m.closed, h)                                   \* a handle that reported closed cannot act any more
                       /\ e.v = I(n)                                           \* once / consecutive sequence numbers
                       /\ (td[2] # 2 => n = 0)
                       /\ e.at >= td[4] + (IF td[2] = 2 THEN (n + 1) * td[3] ELSE IF td[3] >= 0 THEN td[3] ELSE 0)   \* never early
@@ -119,6 +121,8 @@ LogOne(m, e, C) ==
               [m5 EXCEPT !.np = @ + 1, !.ngrp = SetAt(@, p, k, 0), !.gp = Append(@, <<m5.np + 1, p, k>>)]
             ELSE IF rc = 5 /\ ~GetB(m5.pfired, p) THEN      \* the callback sent another item into subject 1
               [m5 EXCEPT !.g = Append(@, <<1, "N", I(W(e.v) + 10)>>), !.pfired = SetAt(@, p, TRUE, FALSE)]
+            ELSE IF rc = 6 /\ ~GetB(m5.pfired, p) THEN      \* the callback sent an item into subject 2
+              [m5 EXCEPT !.g = Append(@, <<2, "N", I(W(e.v) + 20)>>), !.pfired = SetAt(@, p, TRUE, FALSE)]
             ELSE IF (rc = 2 /\ ~GetB(m5.pfired, p)) \/ rc = 3 THEN
               LET mh == NewHandle(m5, m5.hroot[h]) IN
               [mh EXCEPT !.np = @ + 1, !.ph = SetAt(@, m5.np + 1, mh.nh, 0), !.pfired = SetAt(@, p, TRUE, FALSE)]
@@ -264,10 +268,13 @@ T9Step(z0, s, now) ==
 
 (* --- C16: how many items an iterator source has to be pulled for, at most --- *)
 RECURSIVE PullSrc(_)
-(* the from_iter source at the bottom of a single-input chain (0 if there is none) *)
-PullSrc(x) == IF x <= 0 THEN 0 ELSE IF Op(x) = "from_iter" THEN x ELSE IF Op(x) \in RefUnaryOps THEN PullSrc(S1(x)) ELSE 0
+(* the counting iterator source (counter CntPull) somewhere below x (0 if there is none) *)
+PullSrc(x) == IF x <= 0 THEN 0
+              ELSE IF Op(x) = "from_iter" THEN (IF PB(x) = CntPull THEN x ELSE 0)
+              ELSE LET a == IF S1(x) > 0 THEN PullSrc(S1(x)) ELSE 0 IN
+                   IF a > 0 THEN a ELSE IF S2(x) > 0 THEN PullSrc(S2(x)) ELSE 0
 RECURSIVE MinPulls(_, _)
-(* the shortest prefix of the iterator after which the documented output of the chain has terminated *)
+(* the shortest prefix of the counting iterator after which the documented output of the pipeline has terminated *)
 MinPulls(x, k) ==
   IF k >= Len(PL(PullSrc(x))) THEN Len(PL(PullSrc(x)))
   ELSE IF Ref(x, <<>>, 0, 0, {CutName(k)}).term # "" THEN k ELSE MinPulls(x, k + 1)
@@ -420,12 +427,11 @@ MonStep(m0, step, C) ==
       r10b == [Flag(r10, is9 /\ o.fault = "" /\ GetI(m.hend, 1) = 0 /\ s.k # "unsub"
                          /\ (got9 # z9.out \/ \E i \in 1..Len(o.log) : o.log[i].at # r10.now), "C09", checks) EXCEPT !.t9 = z9]
       (* C16: once the subscriber has seen its terminal, every producer feeding it retires: after one more      *)
-      (* period (all periods are 1 in the suite) has elapsed and the executor has run to idle no task is left, *)
-      (* and an iterator source has been pulled exactly as far as the item that ended the stream               *)
+      (* period (all periods are 1 in the suite) has elapsed and the executor has run to idle no task is left  *)
+      (* (iterator sources: see LogOne, no pull after the terminal)                                            *)
       term1 == GetB(r10b.term, 1)
       ts == IF m.tsince >= 0 THEN m.tsince ELSE IF term1 THEN r10b.now ELSE -1
-      r10c == [Flag(Flag(r10b, o.fault = "" /\ s.k = "runall" /\ m.tsince >= 0 /\ r10b.now >= m.tsince + 1 /\ o.live # 0, "C16", checks),
-                    o.fault = "" /\ term1 /\ PullSrc(r10b.hroot[1]) > 0 /\ o.cnt[CntPull] # MinPulls(r10b.hroot[1], 0), "C16", checks)
+      r10c == [Flag(r10b, o.fault = "" /\ s.k = "runall" /\ m.tsince >= 0 /\ r10b.now >= m.tsince + 1 /\ o.live # 0, "C16", checks)
                EXCEPT !.tsince = ts]
       (* C14: conversions report the real outcome and do not stay pending once the source has terminated *)
       is14 == "C14" \in checks /\ o.fault = "" /\ s.k \in {"fpoll", "stq"}
@@ -444,7 +450,11 @@ MonStep(m0, step, C) ==
               ELSE IF n14 < Len(strSeq) THEN o.ret = strSeq[n14 + 1] ELSE o.ret = NoneV
       r10d == [Flag(r10c, is14 /\ ~ok14, "C14", checks)
                EXCEPT !.cpos = IF is14 /\ s.k = "fpoll" /\ o.ret # NoneV THEN SetAt(@, h14, n14 + 1, 0) ELSE @]
-      r11 == Flag(r10d, "C08" \in checks /\ o.fault = "" /\ ~C08Check(r10, o), "C08", checks)
+      (* C13 (hot pipelines): two subscriptions of clones made back to back observe the same, also in time *)
+      r10e == IF "twin" \in checks /\ o.fault = "" /\ r10d.np >= 2 /\ GetI(r10d.hend, 1) = 0 /\ GetI(r10d.hend, 2) = 0
+                 /\ (GetS(r10d.plog, 1) # GetS(r10d.plog, 2) \/ GetS(r10d.pat, 1) # GetS(r10d.pat, 2))
+              THEN AddBad(r10d, "C13") ELSE r10d
+      r11 == Flag(r10e, "C08" \in checks /\ o.fault = "" /\ ~C08Check(r10, o), "C08", checks)
   IN [r11 EXCEPT !.lastcnt = o.cnt, !.gt = Pad(@, Len(r11.g), m.now)]
 
 RECURSIVE MonRun(_, _, _)
